@@ -296,9 +296,8 @@ func bdFixedMenu(cfg *bdCfg) []bdQuery {
 
 func bdCrossMenu(cfg *bdCfg) []bdQuery {
 	ids, starts, ins, usages, valid := bdDims(cfg)
-	if !mc.Thorough() {
-		starts, ins, usages, valid = starts[:4], ins[:3], usages[:3], valid[:3]
-	}
+	// 3 x 4 x 3 x 3 x 3 = 324 conjunctions; the remaining values of each dimension are covered by the fixed menu
+	starts, ins, usages, valid = starts[:4], ins[:3], usages[:3], valid[:3]
 	var q []bdQuery
 	for _, a := range ids {
 		for _, b := range starts {
@@ -558,39 +557,47 @@ func (h *bdHarness) replayInBubble(hist []bdEv) storeResult {
 }
 
 func c27BeaconDB(t *testing.T, r *mc.Run, phases *[]map[string]any) bool {
-	th := mc.Thorough()
-	cfg := &bdCfg{pool: bdPool(th)}
-	cfg.usages = []beacon.Usage{beacon.UsageUpReg | beacon.UsageProp, beacon.UsageDownReg}
-	cfg.nows = []time.Time{c27T0.Add(1000 * time.Second), c27T0.Add(4500 * time.Second)}
-	var q0, q1 string
-	for _, b := range cfg.pool {
-		if b.id == 0 {
-			q0 = b.idHex
+	mk := func(th bool) *bdHarness {
+		cfg := &bdCfg{pool: bdPool(th)}
+		cfg.usages = []beacon.Usage{beacon.UsageUpReg | beacon.UsageProp, beacon.UsageDownReg}
+		cfg.nows = []time.Time{c27T0.Add(1000 * time.Second), c27T0.Add(4500 * time.Second)}
+		var q0, q1 string
+		for _, b := range cfg.pool {
+			if b.id == 0 {
+				q0 = b.idHex
+			}
+			if b.id == 1 {
+				q1 = b.idHex
+			}
 		}
-		if b.id == 1 {
-			q1 = b.idHex
+		cfg.partials = []string{q0, q1[:6]}
+		if th {
+			cfg.usages = append(cfg.usages, beacon.UsageUpReg|beacon.UsageDownReg|beacon.UsageCoreReg|beacon.UsageProp)
+			cfg.nows = append(cfg.nows, c27T0.Add(9000*time.Second))
 		}
+		h := &bdHarness{cfg: cfg, r: r}
+		h.fixed, h.cross = bdFixedMenu(cfg), bdCrossMenu(cfg)
+		return h
 	}
-	cfg.partials = []string{q0, q1[:6]}
-	if th {
-		cfg.usages = append(cfg.usages, beacon.UsageUpReg|beacon.UsageDownReg|beacon.UsageCoreReg|beacon.UsageProp)
-		cfg.nows = append(cfg.nows, c27T0.Add(9000*time.Second))
+	small := mk(false)
+	big := small
+	if mc.Thorough() {
+		big = mk(true)
 	}
-	h := &bdHarness{cfg: cfg, r: r}
-	h.fixed, h.cross = bdFixedMenu(cfg), bdCrossMenu(cfg)
 	r.Extra["beacondb_pool"] = func() (n []string) {
-		for _, s := range cfg.pool {
+		for _, s := range big.cfg.pool {
 			n = append(n, fmt.Sprintf("%s id=%s info=T0+%d expiry=T0+%d in=%d hops=%d", s.name, s.idHex[:8],
 				int(s.info.Sub(c27T0).Seconds()), int(s.expiry.Sub(c27T0).Seconds()), s.b.InIfID, s.nHops))
 		}
 		return
 	}()
-	r.Extra["beacondb_queries_per_replay"] = len(h.fixed) + 8
-	r.Extra["beacondb_queries_per_new_state"] = len(h.fixed) + len(h.cross) + 45
-	replay := func(hist []bdEv) storeResult { return h.replay(t, hist) }
-	ok := runStorePhase(r, storePhase[bdEv]{"beacondb-merge-checked", cfg.menu(), mc.Pick(3, 4), true, replay}, phases)
+	r.Extra["beacondb_queries_per_replay"] = len(big.fixed) + 8
+	r.Extra["beacondb_queries_per_new_state"] = len(big.fixed) + len(big.cross) + 45
+	ok := runStorePhase(r, storePhase[bdEv]{"beacondb-merge-checked", small.cfg.menu(), mc.Pick(3, 4), true,
+		func(hist []bdEv) storeResult { return small.replay(t, hist) }}, phases)
 	if ok {
-		ok = runStorePhase(r, storePhase[bdEv]{"beacondb-to-fixpoint", cfg.menu(), mc.Pick(12, 16), false, replay}, phases)
+		ok = runStorePhase(r, storePhase[bdEv]{"beacondb-to-fixpoint", big.cfg.menu(), mc.Pick(12, 20), false,
+			func(hist []bdEv) storeResult { return big.replay(t, hist) }}, phases)
 	}
 	return ok
 }
